@@ -176,6 +176,16 @@ def probes() -> list[Item]:
     out.append(Item(Prog(accounts={TARGET: code}, calldata=[Sym("cd0", 256), Sym("cd1", 256)], name="hash-const-minus-one",
                          meta={"bounded_inputs": {"cd0": 2**64, "cd1": 2**64}}),
                     [{"cd0": 1, "cd1": 0}, {"cd0": 5, "cd1": 4}, {"cd0": 5, "cd1": 5}, {"cd0": 0, "cd1": 0}], key="probe:hash-const-minus-one"))
+    # a callee that fails on both sides of a symbolic branch: the caller goes on along two paths, each of which increments a
+    # slot (scalar, mapping element, transient) it has never written: what one path stores the other must not load
+    failer = assemble([("PUSH", 0), "CALLDATALOAD", ("PUSH", 1), "AND", ("PUSHL", "o"), "JUMPI", ("PUSH", 0), ("PUSH", 0), "REVERT", ("LABEL", "o"), "INVALID"])
+    callb = [("PUSH", 0), "CALLDATALOAD", ("PUSH", 0x300), "MSTORE", ("PUSH", 0), ("PUSH", 0), ("PUSH", 32), ("PUSH", 0x300), ("PUSH", 0), ("PUSH", 0xB0B), ("PUSH", 0xFFFFF), "CALL", "POP"]
+    mkey = [("PUSH", 32), "CALLDATALOAD", ("PUSH", 0x200), "MSTORE", ("PUSH", 1), ("PUSH", 0x220), "MSTORE", ("PUSH", 64), ("PUSH", 0x200), "SHA3"]
+    for nm, loc, ld, st in (("scalar", [("PUSH", 0)], "SLOAD", "SSTORE"), ("mapping", mkey, "SLOAD", "SSTORE"), ("transient", [("PUSH", 0)], "TLOAD", "TSTORE")):
+        body = callb + loc + [ld, "DUP1", ("PUSH", 1), "ADD"] + loc + [st]
+        code = assemble(body + [("PUSH", 0), "MSTORE", ("PUSH", 32), ("PUSH", 0), "RETURN"])
+        out.append(Item(Prog(accounts={TARGET: code, 0xB0B: failer}, calldata=[Sym("cd0", 256), Sym("cd1", 256)], name=f"siblings-after-failed-call-{nm}"),
+                        [{"cd0": 0, "cd1": 0}, {"cd0": 1, "cd1": 0}, {"cd0": 2, "cd1": 7}, {"cd0": 3, "cd1": 7}], key=f"probe:siblings-after-failed-call-{nm}"))
     # elements of the array at slot 1 / fields of the mapping entry m[1] at slot 0 addressed by PUSH32 constants
     # `hash + i` for hashes of halmos' precomputed table (never computed at run time on the path): distinct offsets are
     # distinct slots, equal offsets the same slot
